@@ -3,7 +3,7 @@
 # a private copy of /verif under /tmp/verif_seed and a private worktree /tmp/wt/seedrepo of /repo HEAD (VERIF_REPO).
 # For each seed: apply patch, run the check of its property (+ extra checks named in seeded/<seed>/also), undo. Results -> seeded/RESULTS.txt
 set -u
-SR=/tmp/wt/seedrepo; VS=/tmp/verif_seed
+SR=${SEED_REPO:-/tmp/wt/seedrepo}; VS=${SEED_VERIF:-/tmp/verif_seed}   # set both to private paths to run several sweeps at once
 mkdir -p /tmp/wt
 if [ ! -d $SR ]; then git -C /repo worktree prune; git -C /repo worktree add --detach $SR HEAD > /dev/null; fi
 git -C $SR checkout -q -- . ; git -C $SR checkout -q --detach $(git -C /repo rev-parse HEAD)
